@@ -72,12 +72,13 @@ def lastTo (d : Pt α) : List (Pt α × Pt α) → Pt α
 
 def quadCalls (qs : List (Pt α × Pt α)) : Calls α := qs.map fun q => .quad q.1 q.2 ()
 
-/-- the pieces of a (non-degenerate) arc whose first piece starts at `start` -/
+/-- the pieces of a (non-degenerate) arc whose first piece starts at `start`; a connecting line to
+`start` moves the current point there (so also when no piece follows) -/
 def Spec.arcOut (s : Spec α) : ArcOut α → Spec α × Calls α
   | .skip => ({ s with prev := .arc }, [])
   | .curve start near quads =>
     if s.isOpen then
-      ({ s with cur := lastTo s.cur quads, prev := .arc },
+      ({ s with cur := lastTo (if near then start else s.cur) quads, prev := .arc },
        (if near then [.line start ()] else []) ++ quadCalls quads)
     else
       ({ cur := lastTo start quads, start := start, isOpen := true, fresh := false, prev := .arc },
